@@ -121,6 +121,31 @@ pub fn less_than_program(k: &str) -> String {
     )
 }
 
+/// Other wirings of the same range checks. Returns (program, inputs that are range-checked by
+/// `Num2Bits(k)` only - each must be flagged when a k-bit value can exceed p/2).
+pub fn less_than_shape(shape: usize, k: &str) -> (String, usize) {
+    let head = "template M(n) {\n    signal input a;\n    signal input b;\n    signal output ok;\n    var k = 100;\n";
+    let tail = format!("    component lt = LessThan({k});\n    lt.in[0] <== a;\n    lt.in[1] <== b;\n    ok <== lt.out;\n}}\n");
+    let (body, must) = match shape {
+        // separately named components
+        0 => (format!("    component ca = Num2Bits({k});\n    ca.in <== a;\n    component cb = Num2Bits({k});\n    cb.in <== b;\n"), 2),
+        // the same name in sibling scopes: `a` is checked with k bits only, `b` with 8 bits
+        1 => (format!("    if (n == 1) {{\n        component c = Num2Bits({k});\n        c.in <== a;\n    }} else {{\n        component c = Num2Bits(8);\n        c.in <== b;\n    }}\n"), 1),
+        // the other way round
+        2 => (format!("    if (n == 1) {{\n        component c = Num2Bits(8);\n        c.in <== b;\n    }} else {{\n        component c = Num2Bits({k});\n        c.in <== a;\n    }}\n"), 1),
+        // a shadowing declaration in a nested block
+        3 => (format!("    component c = Num2Bits(8);\n    c.in <== b;\n    {{\n        component c = Num2Bits({k});\n        c.in <== a;\n    }}\n"), 1),
+        // checks declared after the comparison, components declared first and wired later
+        4 => (format!("    component ca;\n    component cb;\n    ca = Num2Bits({k});\n    cb = Num2Bits({k});\n    cb.in <== b;\n    ca.in <== a;\n"), 2),
+        // a two-dimensional component array
+        _ => (format!("    component cs[2][2];\n    cs[0][1] = Num2Bits({k});\n    cs[0][1].in <== a;\n    cs[1][0] = Num2Bits({k});\n    cs[1][0].in <== b;\n"), 2),
+    };
+    (format!("{head}{body}{tail}"), must)
+}
+pub const LESS_THAN_SHAPES: usize = 6;
+pub static SHAPES_JUDGED: std::sync::atomic::AtomicU64 = std::sync::atomic::AtomicU64::new(0);
+pub static SHAPES_NOT_LIFTED: std::sync::atomic::AtomicU64 = std::sync::atomic::AtomicU64::new(0);
+
 pub fn check_name(name: &str, expected: (bool, bool), ids: &Ids, case: &Value) -> Vec<Violation> {
     let mut out = Vec::new();
     for form in 0..3 {
@@ -203,6 +228,27 @@ pub fn check_size(arg: &str, constant: Option<u64>, ids: &Ids, case: &Value) -> 
             }
             Err(e) => out.push(Violation { signature: format!("MACHINERY-{e}"), what: "not analysed".into(), case: case.clone(), expected: "analysed".into(), observed: src }),
         }
+        if !safe {
+            for shape in 0..LESS_THAN_SHAPES {
+                let (src, must) = less_than_shape(shape, arg);
+                match count_reports(&src, &curve_of(curve), &ids.less_than) {
+                    Ok(n) if n < must => out.push(Violation {
+                        signature: format!("less-than/missing/shape-{shape}/{curve}"),
+                        what: format!("wiring shape {shape}: {must} LessThan input(s) are range-checked only by Num2Bits({arg}) under {curve}, but {n} findings are given"),
+                        case: case.clone(),
+                        expected: format!("at least {must} findings"),
+                        observed: format!("{n}\n{src}"),
+                    }),
+                    Ok(_) => {
+                        SHAPES_JUDGED.fetch_add(1, std::sync::atomic::Ordering::Relaxed);
+                    }
+                    // a shape the lifter rejects is not judged
+                    Err(_) => {
+                        SHAPES_NOT_LIFTED.fetch_add(1, std::sync::atomic::Ordering::Relaxed);
+                    }
+                }
+            }
+        }
     }
     out
 }
@@ -253,7 +299,9 @@ pub fn run(run: &Run) {
     run.set_rule(
         "table parsed from doc/analysis_passes.md (26 names x 2 curves, Circomlib spelling) + ~9 near-miss \
          names each, x 3 instantiation forms x 3 curves; Num2Bits/Bits2Num/LessThan sizes: every \
-         constant 0..300 and non-constant forms {n, n+1, k (local), 2*127, 254-1, 127+127} x 3 curves; \
+         constant 0..300 and non-constant forms {n, n+1, k (local), 2*127, 254-1, 127+127} x 3 curves, the LessThan \
+         clause in 7 wirings (component array, separate names, same name in sibling scopes both ways, shadowing \
+         in a nested block, declared first and wired later, two-dimensional array); \
          every upper/lower-case spelling of the three curve names and every string one edit away \
          through Curve::from_str, 40 of them through the binary; non-trivial = case on which the \
          expected answer is `flagged`/`accepted` or a boundary value",
@@ -338,6 +386,8 @@ pub fn run(run: &Run) {
         run.violations(vs);
     });
     // Spellings.
+    run.set_extra("less_than_wiring_shapes_judged", json!(SHAPES_JUDGED.load(std::sync::atomic::Ordering::Relaxed)));
+    run.set_extra("less_than_wiring_shapes_not_lifted", json!(SHAPES_NOT_LIFTED.load(std::sync::atomic::Ordering::Relaxed)));
     let all = spellings();
     run.set_extra("curve_spellings", json!(all.len()));
     for s in &all {
